@@ -247,7 +247,7 @@ func vfH_C02_flush_timers() {
 func vfH_C02_push_always_acked() {
 	var em []vfEmit
 	k := vfNewKCP("", vfCfg{mtus: []int{60, 1400}, nc: 1}, &em)
-	vfArbitraryKCP("", k, vfPickShapeFrom(vfShapesRecv))
+	vfArbitraryKCP("", k, vfPickShapeRecvSide())
 	vfAssume(k.probe == 0)
 	var f vfDatagramFields
 	f.conv, f.cmd = k.conv, IKCP_CMD_PUSH
